@@ -73,7 +73,7 @@ fn measure(items: &[Item], padded: bool) -> usize {
 impl Prop for C06 {
     type Case = Case;
     const ID: &'static str = "C06";
-    const RULE: &'static str = "item size vectors (n <= 40, sizes from {0,1,2,3,5,8,L-1,L,L+1,3L} and all-equal vectors) x sort x shuffle x prefetch_factor 0..=5 x batch_limit in 0..=16 or 64 x {BatchSize, PaddedItemSize} x seed (Some, occasionally None). Oracle: end of iteration within n+2 calls, batches partition the ids, no empty batch, every batch with > 1 item within the limit, same seed => same batches; without sort/shuffle the concatenation is the input order and every batch but the last is greedy-maximal. Non-trivial: >= 2 batches and (an oversized or zero-size item, or sort+shuffle with a buffer shorter than three batches). Distinct = distinct serialised case.";
+    const RULE: &'static str = "item size vectors (n <= 40, occasionally up to 300, sizes from {0,1,2,3,5,8,L-1,L,L+1,3L} and all-equal vectors) x sort x shuffle x prefetch_factor 0..=5 x batch_limit in 0..=16 or 64 x {BatchSize, PaddedItemSize} x seed (Some, occasionally None). Oracle: end of iteration within n+2 calls, batches partition the ids, no empty batch, every batch with > 1 item within the limit, same seed => same batches; without sort/shuffle the concatenation is the input order and every batch but the last is greedy-maximal. Non-trivial: >= 2 batches and (an oversized or zero-size item, or sort+shuffle with a buffer shorter than three batches). Distinct = distinct serialised case.";
     const CLAIMS_TERMINATION: bool = true;
     const HANG_SECS: u64 = 20;
     const ESSENTIAL: &'static [&'static str] = &["plain", "sort", "shuffle", "sort+shuffle", "oversized", "zero_size", "padded", "batch_size", "limit_0", "seed_none", "no_fitting_subsequence"];
@@ -86,7 +86,7 @@ impl Prop for C06 {
     }
 
     fn strategy(_tier: Tier, _shard: u32) -> BoxedStrategy<Case> {
-        prop_oneof![8 => 0usize..=16, 1 => Just(64usize)]
+        prop_oneof![16 => 0usize..=16, 2 => Just(64usize), 1 => 17usize..=300]
             .prop_flat_map(|limit| {
                 let l = limit.max(1);
                 let size = prop_oneof![
@@ -102,7 +102,8 @@ impl Prop for C06 {
                     1 => Just(3 * l),
                 ];
                 let sizes = prop_oneof![
-                    6 => proptest::collection::vec(size.clone(), 0..=40),
+                    12 => proptest::collection::vec(size.clone(), 0..=40),
+                    1 => proptest::collection::vec(size.clone(), 41..=300),
                     1 => (size, 0usize..=40).prop_map(|(s, n)| vec![s; n]),
                 ];
                 (
